@@ -88,10 +88,21 @@ func GenerateIndexing(t *rapid.T, kind string, use func(string) bool) *Program {
 	f.Body = append(f.Body, &Let{Name: "ci", T: i32, Init: &Lit{T: i32, I: big.NewInt(idxLit("ci"))}, Const: true})
 	f.Body = append(f.Body, &Let{Name: "fi", T: i32, Init: &Lit{T: i32, I: big.NewInt(idxLit("fi"))}}) // never reassigned
 	f.Body = append(f.Body, &Let{Name: "vi", T: i32, Init: &Lit{T: i32, I: big.NewInt(idxLit("vi"))}}) // reassigned
+	u8 := IntT(8, false)
+	f.Body = append(f.Body, &Let{Name: "wk", T: u8, Init: &Lit{T: u8, I: big.NewInt(250)}, Const: true})
 	f.Body = append(f.Body, &Let{Name: "flag", T: TBool, Init: &Bin{T: TBool, Op: ">", L: &Var{T: IntT(64, true), Name: "canary1"}, R: &Lit{T: IntT(64, true), I: big.NewInt(int64(g.intRange(0, 1, "flagv")) * 2000000000)}}})
 	arrVar := func() Expr { return &Var{T: at, Name: arr} }
 	idxExpr := func(label string) Expr {
-		switch g.intRange(0, 7, label+"_k") {
+		switch g.intRange(0, 8, label+"_k") {
+		case 8:
+			// constant arithmetic that wraps around in its 8-bit type: (250 + d) mod 256 is the index
+			j := idxLit(label)
+			if j >= 0 && j < 200 {
+				g.use("index.wrapping_const_arith")
+				return &Bin{T: u8, Op: "+", L: &Var{T: u8, Name: "wk"}, R: &Lit{T: u8, I: big.NewInt((j - 250 + 256) % 256)}}
+			}
+			g.use("index.literal")
+			return &Lit{T: i32, I: big.NewInt(j)}
 		case 0:
 			g.use("index.literal")
 			return &Lit{T: i32, I: big.NewInt(idxLit(label))}
@@ -122,7 +133,7 @@ func GenerateIndexing(t *rapid.T, kind string, use func(string) bool) *Program {
 	for k := 0; k < nst; k++ {
 		lab := fmt.Sprintf("st%d", k)
 		choice := g.intRange(0, 14, lab)
-		if kind == "fixed" && (choice == 6 || choice == 7 || choice == 8 || choice >= 12) && !g.chance(6, lab+"_nonconst") {
+		if kind == "fixed" && (choice == 6 || choice == 7 || choice == 8 || choice >= 12) && !g.chance(14, lab+"_nonconst") {
 			choice = g.intRange(0, 5, lab+"_alt")
 		}
 		switch choice {
